@@ -15,6 +15,7 @@ RULE = ("random populated topologies (3..12 real nodes, >=2 nodes on most levels
         "frame, ACK packets, relayed frames). Non-trivial: a multicast frame crossed the air and "
         "quiescence was reached; distinct = (sender class, level argument, length class, relay "
         "pattern, multicast-off pattern, profile class).")
+RULE += (" Later rounds added: multicast_level overrides, multicasts arriving while a member waits for a NETWORK_ACK, the reverse (a member's failing unicast starts right after the multicast reached its radio), a relay whose application stops reading, a multicast after a fragmented unicast that failed outright.")
 REQUIRED = {"level_members_once": 150, "other_levels_clean": 150, "unacknowledged": 150,
             "relay_rebroadcast": 20, "multicast_off_not_listening": 30}
 BUDGET = {"quick": 480, "thorough": 900}
